@@ -535,7 +535,27 @@ func GenXZ(r *sim.Rng, big bool) *XZ {
 			maxOps = r.Range(100, 400)
 		}
 		kinds := RandomLegalKinds(r, nch)
-		cs := Realise(r, kinds, SeqOptions{MaxOpsPerChunk: maxOps, MaxRaw: maxRaw, DictSize: ds, BigChunk: big && !many && r.Chance(1, 4)})
+		o := SeqOptions{MaxOpsPerChunk: maxOps, MaxRaw: maxRaw, DictSize: ds, BigChunk: big && !many && r.Chance(1, 4)}
+		if !many && r.Chance(1, 60) {
+			// a block whose LZMA chunks are larger than their data: full raw chunks
+			// as history, then two-byte matches at far, ever-changing distances
+			db = 18
+			ds, _ = reflzma.DictSizeFromByte(db) // 1 MiB
+			kinds = []string{"UD"}
+			o = SeqOptions{MaxOpsPerChunk: maxOps, DictSize: ds, ForceSize: map[int]int{0: 1 << 16}, Costly: map[int]bool{}}
+			for k := r.Range(1, 6); k > 0; k-- {
+				o.ForceSize[len(kinds)] = 1 << 16
+				kinds = append(kinds, "U")
+			}
+			o.Costly[len(kinds)] = true
+			kinds = append(kinds, "LRN")
+			if r.Bool() {
+				o.Costly[len(kinds)] = true
+				kinds = append(kinds, sim.Pick(r, []string{"L", "LR", "LRN"}))
+			}
+			kinds = append(kinds, "end")
+		}
+		cs := Realise(r, kinds, o)
 		bs := refxz.BlockSpec{Data: cs.Stream, Content: cs.Content, DictByte: db,
 			WithCompSize: r.Chance(1, 3), WithUncomp: r.Chance(1, 3)}
 		if r.Chance(1, 6) {
